@@ -131,11 +131,13 @@ def operator_rules(ck, F):
 
 def eval_rules(ck, F):
     # R15.2 evaluation on the prover
-    ev_path = H.P_PRV + "eval"
+    ev_path, ev_recv = H.eval_site(F)
     fn = F.fn(ev_path)
     ck.fn(ev_path)
     i_ = isym("i")
     st = C16.state("prover", None)
+    if ev_recv == "secrets":
+        st = st.fields["secrets"]
     cf = ssym("cf")
     vals = {
         "MultiplierLeft": sfun("aL")(i_), "MultiplierRight": sfun("aR")(i_), "MultiplierOutput": sfun("aO")(i_), "Committed": sfun("v")(i_), "One": sp.Integer(1), "Phantom": sp.Integer(0),
